@@ -126,6 +126,10 @@ def check(name, tier="quick", props=None, seeds=(0,)):
     finally:
         drop(w)
     meta.setdefault("detection", {}).update(out_all)
+    # the verdict of the first evaluation is kept; later runs (after a check was strengthened) only update `detection`
+    first = meta.setdefault("first_detection", {})
+    for k, v in out_all.items():
+        first.setdefault(k, dict(v, verif_commit=sh("git -C %s rev-parse --short HEAD" % HERE)[1].strip()))
     json.dump(meta, open(os.path.join(d, "meta.json"), "w"), indent=1)
     return out_all
 
@@ -145,17 +149,22 @@ def results_md():
             continue
         m = json.load(open(mp))
         det = m.get("detection", {})
+        first = m.get("first_detection", {})
         caught = [k for k, v in det.items() if v.get("exit") == 1]
         missed = [k for k, v in det.items() if v.get("exit") == 0]
-        rows.append("| %s | %s | %s | %s | %s | %s |" % (
-            name, m.get("property"), (m.get("summary") or "")[:110].replace("|", "/"),
+        own = "%s/quick/seed0" % m.get("property")
+        f = first.get(own, {}).get("exit")
+        rows.append("| %s | %s | %s | %s | %s | %s | %s |" % (
+            name, m.get("property"), (m.get("summary") or m.get("description") or "")[:110].replace("|", "/").replace("\n", " "),
             "yes" if m.get("verified", {}).get("valid") else "no",
+            {1: "caught", 0: "missed", None: "-"}.get(f, "error"),
             ", ".join(caught) or "-", ", ".join(missed) or "-"))
     with open(os.path.join(SEEDED, "RESULTS.md"), "w") as f:
         f.write("# Seeded property-breaking changes\n\nEach change was written by an independent sub-agent that saw only the "
                 "property text and its own worktree. `valid` = applies to /repo HEAD, repository suite green with it, demo "
-                "PASS on the clean tree and FAIL with the change.\n\n| change | property | what it does | valid | caught by "
-                "(check/tier/seed) | missed by |\n|---|---|---|---|---|---|\n" + "\n".join(rows) + "\n")
+                "PASS on the clean tree and FAIL with the change. `first run` = verdict of the property's own quick check the first "
+                "time the change was evaluated (before any strengthening prompted by it).\n\n| change | property | what it does | valid | first run | "
+                "caught by now (check/tier/seed) | missed by now |\n|---|---|---|---|---|---|---|\n" + "\n".join(rows) + "\n")
     print("\n".join(rows))
 
 
